@@ -196,7 +196,11 @@ func (i *importedString) Concat(v String) String {
 	if !i.isScanned() {
 		if v, ok := v.(*importedString); ok {
 			if !v.isScanned() {
-				return &importedString{s: i.s + v.s}
+				// the bytes may only be joined if that cannot complete a truncated UTF-8 sequence at the end of i.s
+				// (which scans to U+FFFD on its own)
+				if r, size := utf8.DecodeLastRuneInString(i.s); r != utf8.RuneError || size != 1 {
+					return &importedString{s: i.s + v.s}
+				}
 			}
 		}
 		i.ensureScanned()
